@@ -512,3 +512,10 @@ def no_stale_results(db, ctx):
 def node_span_units(db, ctx):
     from . import C13
     C13.oov_units(db, ctx)
+
+
+@rule("C03.ids-in-range", "connection ids that reach the lattice from plugin configuration were rejected at load when >= the matrix dimension, so "
+                          "ConnectionMatrix::cost (unchecked indexing) stays in bounds (re-evaluation of C20.bounds)")
+def ids_in_range(db, ctx):
+    from . import C20
+    C20.bounds(db, ctx)
